@@ -78,9 +78,10 @@ PROPS["C15"] = _p([r"^c15_"], ["C15:"], all_tags_for=r"^c15_.*_model$", bounds=S
     "permuted by a symbolic permutation (all 2 / all 6). Targets: S1, S2, S3, S4, S6 of the catalogue and BTreeMap<KeyT,u8> (insert log compared as a multiset); tagged enums E0/E1/E2: the concrete reversal (tag first vs. tag last) as a two-run harness, and `*_taglast_model` harnesses comparing the tag-last run with the order-independent reference model (a symbolic tag position does not finish in 25 min).")
 PROPS["C18"] = dict(select=[r"^c18_"], tags=["C18:"], cap_quick=1200, cap_thorough=7200,
     bounds="received string: a run of one letter ('a', or the 2-byte U+00E9) of symbolic length 0..30 characters; 0..3 candidates, each a run of the same letter of "
-           "symbolic length 0..30; layer 2 (thorough): concrete candidate lists, symbolic received length 0..12, real formatting, output compared byte for byte",
+           "symbolic length 0..30; thorough adds the 3-byte U+20AC family (0..21 characters = 63 bytes) and ASCII runs of 0..64 bytes; layer 2: three non-empty candidates of symbolic length, "
+           "the named candidate identified by pointer identity through a probing fmt::Write (native replay compares the real text byte for byte)",
     outside="strings that are not runs of a single letter: the edit-distance kernel strsim::damerau_levenshtein (a dependency) is replaced by its closed form "
-            "|n-m| on this string family - the kernel itself is trusted; lists longer than 3",
+            "|n-m| on this string family - the kernel itself is trusted; lists longer than 3; strings longer than 64 bytes",
     assumptions=COMMON_ASSUME + ["stub: strsim::damerau_levenshtein(x^n, x^m) = |n-m| (its true value on the harness' string family)",
                                  "layer 1 stub: alloc::fmt::format returns a marker (emptiness of the suggestion is observed, not its text)"])
 
